@@ -12,6 +12,7 @@ import (
 	"sort"
 	"strings"
 	"testing"
+	"time"
 
 	"nhooyr.io/websocket"
 	"pgregory.net/rapid"
@@ -195,7 +196,7 @@ func genC13(rt *rapid.T) c13Case {
 				r.Upgr = []string{how}
 			}
 		case "accept":
-			how = rapid.SampledFrom([]string{"other-key", "missing", "case-changed", "truncated"}).Draw(rt, "acceptBad")
+			how = rapid.SampledFrom([]string{"other-key", "missing", "case-changed", "truncated", "padding-bits-1", "padding-bits-2", "padding-bits-3", "unpadded", "url-alphabet-or-doubled"}).Draw(rt, "acceptBad")
 			r.Accept = how
 		case "proto":
 			how = rapid.SampledFrom([]string{"unrequested", "requested-case", "empty", "header-only", "list-with-requested", "requested-then-foreign", "two-lines"}).Draw(rt, "protoBad")
@@ -218,12 +219,18 @@ type c13Seen struct {
 // c13LastLib is the transport handed to Dial as the 101 response body by the last doC13 call.
 var c13LastLib *memconn.End
 
+// c13SilentPeer (TestC13Silent, virtual time): the server says nothing behind its response
+// and keeps the connection open.
+var c13SilentPeer bool
+
 func doC13(c c13Case) (conn *websocket.Conn, err error, seen c13Seen, respProto string) {
 	lib, peer := memconn.Pipe()
 	c13LastLib = lib
 	// the body ends at once: on a rejected response Dial reads up to 1 KiB of it
 	// (for the error message) and would otherwise wait 3 real seconds
-	peer.CloseWrite(nil)
+	if !c13SilentPeer {
+		peer.CloseWrite(nil)
+	}
 	rt := rtf(func(r *http.Request) (*http.Response, error) {
 		seen.Req = r
 		seen.Key = r.Header.Get("Sec-WebSocket-Key")
@@ -244,6 +251,22 @@ func doC13(c c13Case) (conn *websocket.Conn, err error, seen c13Seen, respProto 
 			h.Set("Sec-WebSocket-Accept", swapCaseAll(good))
 		case "truncated":
 			h.Set("Sec-WebSocket-Accept", good[:len(good)-2])
+		case "padding-bits-1", "padding-bits-2", "padding-bits-3":
+			// 20 bytes are 27 characters and one "=": the last character carries two bits that
+			// belong to no byte. A value that differs from the right one only there is a
+			// different string (a lenient base64 decoder would map it to the same digest)
+			const alphabet = "ABCDEFGHIJKLMNOPQRSTUVWXYZabcdefghijklmnopqrstuvwxyz0123456789+/"
+			b := []byte(good)
+			b[26] = alphabet[strings.IndexByte(alphabet, b[26])^int(c.Resp.Accept[len(c.Resp.Accept)-1]-'0')]
+			h.Set("Sec-WebSocket-Accept", string(b))
+		case "unpadded":
+			h.Set("Sec-WebSocket-Accept", strings.TrimRight(good, "="))
+		case "url-alphabet-or-doubled":
+			if alt := strings.NewReplacer("+", "-", "/", "_").Replace(good); alt != good {
+				h.Set("Sec-WebSocket-Accept", alt)
+			} else {
+				h.Set("Sec-WebSocket-Accept", good+good)
+			}
 		}
 		switch c.Resp.Proto {
 		case "requested":
@@ -432,9 +455,52 @@ func c13Verdict(c c13Case) string {
 	return verdict
 }
 
+// TestC13Silent: a server answers with a response that must be rejected and then stays
+// silent with the connection open (a 101 hands the raw connection to the caller, so that
+// nothing else watches it). Dial is called without any deadline. "Returns an error and no
+// connection" includes returning: within 60 s of virtual time here (the tree under test
+// takes 3 s to give up reading the body it only wants for its error message).
+func TestC13Silent(t *testing.T) {
+	rec := evid.For("C13")
+	rapid.Check(t, func(rt *rapid.T) {
+		c := genC13(rt)
+		if c13Verdict(c) != "bad" {
+			// make it a response that is wrong in exactly the drawn way
+			c.Resp.Accept = rapid.SampledFrom([]string{"other-key", "missing", "truncated"}).Draw(rt, "silentAcceptBad")
+		}
+		var msg string
+		rapid.SyncTest(rt, func(rt *rapid.T) {
+			c13SilentPeer = true
+			defer func() { c13SilentPeer = false }()
+			var conn *websocket.Conn
+			var err error
+			done := make(chan struct{})
+			go func() {
+				defer close(done)
+				conn, err, _, _ = doC13(c)
+			}()
+			if !within(done, 60*time.Second) {
+				msg = "Dial did not return within 60 s (virtual) of a response it has to reject: the server stays silent behind it and the caller set no deadline"
+				c13LastLib.Close() // lets the Dial end
+				<-done
+			} else if conn != nil || err == nil {
+				msg = fmt.Sprintf("an invalid response was accepted (conn=%v err=%v)", conn != nil, err)
+			}
+			if conn != nil {
+				conn.CloseNow()
+			}
+			c13LastLib.Close()
+		})
+		rec.Case(c.Resp.Status == 101, fmt.Sprintf("silent|%d|%s|%v", c.Resp.Status, c.Resp.Accept, c.Resp.Muts), "server-silent-behind-a-rejected-response", fmt.Sprintf("silent-status:%d", c.Resp.Status))
+		if msg != "" {
+			rt.Fatalf("C13 %+v: %s", c, msg)
+		}
+	})
+}
+
 func TestC13(t *testing.T) {
 	rec := evid.For("C13")
-	rec.Rule = "rapid draws DialOptions (URL scheme ws/wss/http/https, caller headers incl. ones the library must override, Host override, 0-3 subprotocols, 3 compression modes) observed by a custom RoundTripper, in a quarter of the cases after the same process has accepted a connection with a drawn (mode, offer), and a server response built from a valid one by 0-2 mutations over status {101,200,204,301,400,426,500,100,102}, Connection/Upgrade variants, accept key {correct, for another key, missing, case-changed, truncated}, subprotocol {none, requested, other case, unrequested, empty}, 17 extension header variants. Independent predicates check the request and decide whether the response may be accepted (ok / bad / either). Keys of 200 Dials are pairwise distinct; thorough re-runs that in a second process and requires disjoint sets. Non-trivial: a response valid in all but one respect, or valid with multi-token headers. distinct = hash(options, response)."
+	rec.Rule = "rapid draws DialOptions (URL scheme ws/wss/http/https, caller headers incl. ones the library must override, Host override, 0-3 subprotocols, 3 compression modes) observed by a custom RoundTripper, in a quarter of the cases after the same process has accepted a connection with a drawn (mode, offer), and a server response built from a valid one by 0-2 mutations over status {101,200,204,301,400,426,500,100,102}, Connection/Upgrade variants, accept key {correct, for another key, missing, case-changed, truncated, differing only in the two unused bits of the last base64 character, unpadded, URL alphabet or doubled}, subprotocol {none, requested, other case, unrequested, empty}, 17 extension header variants. Independent predicates check the request and decide whether the response may be accepted (ok / bad / either). Keys of 200 Dials are pairwise distinct; thorough re-runs that in a second process and requires disjoint sets. Non-trivial: a response valid in all but one respect, or valid with multi-token headers. distinct = hash(options, response)."
 	rapid.Check(t, func(rt *rapid.T) {
 		c := genC13(rt)
 		hdrBefore := c.Header.Clone()
